@@ -17,7 +17,9 @@ Fixpoint psteps (pd : pdoc) (cs : list tchange) : outcome pdoc :=
       end
   end.
 
+(* a notification without content changes leaves the document as it is (lib.rs: early return) *)
 Definition update_doc (d : doc) (cs : list tchange) : outcome doc :=
+  match cs with [] => Done d | _ :: _ =>
   match psteps (pdoc_of d) cs with
   | Done pd =>
       match build_res (p_tree pd) with
@@ -30,4 +32,4 @@ Definition update_doc (d : doc) (cs : list tchange) : outcome doc :=
       end
   | Panic => Panic
   | OutOfFuel => OutOfFuel
-  end.
+  end end.
